@@ -83,6 +83,18 @@ pub(crate) fn verif_ctx(
 }
 
 #[cfg(feature = "verif")]
+impl<L, A, R, C, F: Filter, S> Port<'_, L, A, R, C, F, S> {
+    /// Verification hook: the master port a port in the slave state is bound
+    /// to, `None` in every other state.
+    pub fn verif_remote_master(&self) -> Option<PortIdentity> {
+        match &self.port_state {
+            PortState::Slave(state) => Some(state.remote_master()),
+            _ => None,
+        }
+    }
+}
+
+#[cfg(feature = "verif")]
 pub(crate) fn verif_ctx_dump(ctx: &TimestampContext) -> std::string::String {
     use actions::TimestampContextInner as I;
     match &ctx.inner {
